@@ -29,7 +29,8 @@ COMPONENTS = {
              "remote targets: Type 1/2/3/4A/4B tag, NFC-DEP target passive 106A/212F/424F",
              "remote initiators for listen_tta (Type 2 / Type 4A), listen_ttf, listen_dep (106A/212F/424F)"],
     "covered (driver: kinds)": {d: list(k) for d, k in world.KINDS.items()},
-    "not covered": ["udp driver (W3 SimNet)", "active communication mode (sense_dep / InJumpForPSL)",
+    "udp driver (phase udp, W3 SimNet)": ["initiator 212F", "initiator 106A", "target 212F (listen_ttf)"],
+    "not covered": ["active communication mode (sense_dep / InJumpForPSL)",
                     "RC-S956 Type 1 Tag with dynamic memory (driver refuses it)", "exchange(timeout=None)"],
 }
 ASSUMPTIONS = [
@@ -40,7 +41,8 @@ ASSUMPTIONS = [
     "0x0A/0x29/0x31 as target -> BrokenLinkError; other codes documented in the PN532/PN533/RC-S956 manuals -> "
     "CommunicationError other than TimeoutError; RC-S380 single status bits likewise",
 ]
-_REACH = ["reached.%s.%s" % (d, k) for d in world.DRIVERS for k in world.KINDS[d]]
+_REACH = ["reached.%s.%s" % (d, k) for d in world.DRIVERS for k in world.KINDS[d]] + \
+    ["reached.udp." + r for r in ("initiator-F", "initiator-A", "target-F")]
 REQUIRED_PROBES = {"quick": ["fault_free.returned_data", "status.success_returns_data"] + _REACH,
                    "thorough": ["fault_free.returned_data", "status.success_returns_data"] + _REACH}
 
@@ -56,7 +58,8 @@ def phases(tier):
     # one phase per driver; the target kind is the first seeded choice of a run (24 / 300 runs per kind
     # on average; every (driver, kind) pair is a required reach probe)
     return [{"name": d, "runs": (24 if q else 300) * len(world.KINDS[d]), "chunk": 8 if q else 25,
-             "params": {"driver": d, "tier": tier}} for d in world.DRIVERS]
+             "params": {"driver": d, "tier": tier}} for d in world.DRIVERS] + \
+        [{"name": "udp", "runs": 600 if q else 60000, "params": {"driver": "udp", "tier": tier}}]
 
 
 def attempt(nfc, drv, kind, variant, choice, payload, timeout, fault):
@@ -147,6 +150,13 @@ def fdesc(f, cmds):
 
 
 def run_one(sim, params):
+    if params["driver"] == "udp":
+        from checks import c13_udp
+        return c13_udp.run_udp(sim, params)
+    return run_w2(sim, params)
+
+
+def run_w2(sim, params):
     nfc = core.import_nfc()
     import nfc.clf
     drv = params["driver"]
